@@ -77,7 +77,14 @@ OWN_SPECS = [
     dict(name="c08_holes_ext3", kb=8192, args="-t ext3 -b 1024 -g 256 -N 288 -J size=1", tree="std",
          extras=["xattrs", "deepfile"], punch=True),
 ]
-QUICK_SPECS = ["ext2_1k", "ext4_1k", "ext4_4k", "ext4_flex4_g", "ext4_noflex", "ext4_metabg",
+# "packed": tiny groups, the first KEEP groups filled to the last block and inode, a few files
+# whose inodes and data live behind them; a forced shrink to KEEP groups can only use the blocks
+# the shrink itself frees (descriptor blocks) - the allocator's tightest mode
+OWN_SPECS += [
+    dict(name="c08_packed15", kb=32768, packed=dict(keep=15, bpg=256, opts="^has_journal,^resize_inode,^metadata_csum,^64bit,^huge_file,^dir_nlink")),
+    dict(name="c08_packed7c", kb=32768, packed=dict(keep=7, bpg=256, opts="^has_journal,^resize_inode")),
+]
+QUICK_SPECS = ["c08_packed15", "c08_packed7c", "ext2_1k", "ext4_1k", "ext4_4k", "ext4_flex4_g", "ext4_noflex", "ext4_metabg",
                "ext4_32bit", "ext4_bigalloc4", "ext4_inline", "ext4_sparse2", "ext4_eainode",
                "ext4_quota", "ext4_orphanfile", "ext4_full", "ext4_64groups", "ext4_4k_encodings",
                "c08_fill60", "c08_nores_flex", "c08_nores_ext2", "c08_holes_ext4", "c08_holes_ea",
@@ -387,6 +394,59 @@ def linkdir(b, env, img, tmp, nlinks=44):
     return nlinks
 
 
+def build_packed(b, env, img, tmp, P, kb):
+    """see the comment at OWN_SPECS; free counts are read with the independent reader"""
+    keep, bpg = P["keep"], P["bpg"]
+    with open(img, "wb") as f:
+        f.truncate(kb * 1024)
+    r = run.run([b.tool("mke2fs"), "-q", "-F", "-t", "ext4", "-m", "0", "-O", P["opts"], "-E",
+                 "lazy_itable_init=0,hash_seed=" + zoo.HASH_SEED, "-U", zoo.UUID, "-b", "1024", "-g", str(bpg),
+                 "-N", "2048", "-I", "256", img, str(kb)], env=env, timeout=300)
+    if r.rc != 0:
+        raise zoo.ZooError("mke2fs (packed) failed: " + r.etext[-300:])
+
+    def kept_free():
+        with I.Image(img) as im:
+            g = im.group_descs()[:keep]
+            return sum(x.free_blocks for x in g), sum(x.free_inodes for x in g)
+
+    def dbg(lines):
+        r = run.run([b.tool("debugfs"), "-w", "-f", "-", img], env=env, timeout=600,
+                    stdin=("\n".join(lines) + "\n").encode())
+        if r.rc != 0:
+            raise zoo.ZooError("debugfs (packed) failed: " + r.etext[-300:])
+
+    def host(name, nblk, tag):
+        p = os.path.join(tmp, name)
+        with open(p, "wb") as f:
+            for k in range(nblk):
+                f.write(bytes(((k * 7 + o + tag) % 250) + 1 for o in range(1024)))
+        return p
+    spare = 10
+    fb, fi = kept_free()
+    dbg(["mkdir /e", "cd /e"] + ["mknod p%d p" % i for i in range(fi - 1)] + ["rm p%d" % i for i in range(spare)])
+    fb, fi = kept_free()
+    if fi != spare:
+        raise zoo.ZooError("packed: expected %d spare inodes, have %d" % (spare, fi))
+    dbg(["write %s big" % host("big", fb - 12, 1)])
+    n = 0
+    while True:
+        fb, fi = kept_free()
+        if fb <= 0:
+            break
+        if n >= spare - 1:
+            raise zoo.ZooError("packed: ran out of spare inodes while filling (%d blocks left)" % fb)
+        dbg(["write %s fill%d" % (host("fill%d" % n, min(fb, 4), 2 + n), n)])
+        n += 1
+    fb, fi = kept_free()
+    dbg(["cd /e"] + ["mknod q%d p" % i for i in range(fi)])
+    fb, fi = kept_free()
+    if fb or fi:
+        raise zoo.ZooError("packed: kept groups still have %d blocks / %d inodes free" % (fb, fi))
+    dbg(["write %s v%d" % (host("v%d" % i, 4, 40 + i), i) for i in range(3)])
+    dbg(["cd /e"] + ["rm p%d" % i for i in range(100, 104)])
+
+
 def w_prep(arg):
     root, name, wdir = arg
     b = build.Build(root, "plain")
@@ -399,7 +459,10 @@ def w_prep(arg):
     img = os.path.join(bases, name + ".img")
     info = {"name": name, "error": None, "settled": False}
     try:
-        zoo.build_image(b, spec, img, tmp)
+        if spec.get("packed"):
+            build_packed(b, env, img, tmp, spec["packed"], spec["kb"])
+        else:
+            zoo.build_image(b, spec, img, tmp)
         if spec.get("punch"):
             info["punched"] = punch(b, env, img, tmp)
             info["linkdir"] = linkdir(b, env, img, tmp)
@@ -542,6 +605,10 @@ def candidates(info, rng):
             t = mn - rng.randint(1, max(1, min(mn // 6, mn - fdb - 32)))
             if t < cur:
                 out["force"].append(case("force", str(t), ["-f"] if not need_f else [], note="forced-below-P"))
+    pk = spec_of(info["name"]).get("packed")
+    if pk:
+        for d in (1, 0, 2, pk["bpg"] + 1):
+            out["force"].append(case("force", str(pk["keep"] * pk["bpg"] + d), ["-f"], note="packed-to-%d+%d" % (pk["keep"], d)))
     if stable and cur > mn + 8:
         out["refuse"].append(case("refuse", str(rng.randint(mn, cur - 1)), note="stable_inodes-shrink"))
     if need_f:
@@ -578,6 +645,11 @@ def plan(seed, infos, total):
         for k in cands[n]:
             rng.shuffle(cands[n][k])
     cases = []
+    # the engineered "packed" images exist for their forced shrinks: always run them
+    for n in names:
+        if spec_of(n).get("packed"):
+            cases += [c for c in cands[n]["force"] if c["note"].startswith("packed")]
+            cands[n]["force"] = [c for c in cands[n]["force"] if not c["note"].startswith("packed")]
     for kind, frac in QUOTA:
         want = max(1, int(round(total * frac)))
         order = names[:]
